@@ -1100,6 +1100,7 @@ func encWanted(codec string) bool { return strHasPrefix(codec, "avc") || strHasP
 // (keyOfKid of the advertised key id, by addEncryption); pre-encrypted data is refused.
 //@ func encryptFrags
 //@   wiring
+//@   keep nil: drmCfg.Map; ed.initEnc; ed.key; ed.iv
 //@   ensures refusedIfPreEncrypted: rp.encData == nil && rp.PreEncrypted ==> result != nil
 //@   callsite EncryptFragment requires cencUsesLoadedProtectData: cfg.DRM == "eccp-cenc" ==> arg3 == rp.encData.initEnc["cenc"].pd
 //@   callsite EncryptFragment requires cbcsUsesLoadedProtectData: cfg.DRM == "eccp-cbcs" ==> arg3 == rp.encData.initEnc["cbcs"].pd
@@ -1114,6 +1115,7 @@ func encWanted(codec string) bool { return strHasPrefix(codec, "avc") || strHasP
 // the protected init built at load time for the requested scheme (never the clear one).
 //@ func matchInit
 //@   wiring
+//@   keep nil: drmCfg.Map
 //@   ensures cencInit: ret1 == nil && ret0.isInit && cfg.DRM == "eccp-cenc" && ret0.rep.encData != nil ==> ret0.init == ret0.rep.encData.initEnc["cenc"].initRaw
 //@   ensures cbcsInit: ret1 == nil && ret0.isInit && cfg.DRM == "eccp-cbcs" && ret0.rep.encData != nil ==> ret0.init == ret0.rep.encData.initEnc["cbcs"].initRaw
 //@   ensures clearInit: ret1 == nil && ret0.isInit && (cfg.DRM == "" || ret0.rep.encData == nil) ==> ret0.init == ret0.rep.initBytes
